@@ -22,6 +22,7 @@ I_ASSUME = [
     'engine I: std::collections::HashMap is the ENVIRONMENT of the in-memory backend: a map is a bounded list of entries with pairwise distinct symbolic keys; get/get_mut/contains_key/insert/remove/entry have their documented semantics',
     'engine I: pre-states satisfy the representation invariant of core/src/inmemory.rs (children index <-> version records, snapshot data <-> snapshot metadata, versions belong to existing clients, latest is one of the client\'s versions); the invariant is re-established by every method inside its precondition (checked)',
     'engine I: payloads and timestamps are opaque tokens the code may move and clone but not inspect; versions_since < u32::MAX; std::sync::Mutex is not modelled (single transaction)',
+    'engine I, history mode: three bounded histories (<= 11 calls, two clients, every id symbolic) from the EMPTY store, every call compared with a symbolic reference implementation of the contract; no assumption on how Inner represents the state; histories respect the documented preconditions',
     'engine I: when the current source cannot be encoded, or a violated obligation does not reproduce as a public-API history on the real backend, the in-memory leg is reported as not decided (NOTE line, evidence engine_i.not_decided) and the verdict rests on the other engines',
 ]
 
